@@ -132,15 +132,19 @@ PhaseWord(p) == CASE p = "start" -> "start" [] p = "eval" -> "evaluate" [] p = "
 NothingLeftStarted(s) == \A k \in DOMAIN s.st : s.st[k] \notin {"started", "starting"}
 EveryStartHasItsStop(s) == \A k \in s.ustarted : (St(s, k) \in {"stopped", "stopping"}) => k \in s.ustopped
 
+\* a run that returned normally carries no error fields (the clause list is built eagerly, so every field access is guarded)
+RetTags(e) == IF "tags" \in DOMAIN e THEN e.tags ELSE <<>>
+RetNode(e) == IF "node" \in DOMAIN e THEN e.node ELSE -1
+
 OnRet(e) ==
     LET cleanup == Traces[tid].prog.cleanup = 1
         why == FirstFail(<<
           <<"C14.run_failed_although_no_user_code_threw", S.first # <<>> \/ e.ok = 1>>,
           <<"C14.exception_did_not_reach_the_caller", S.first = <<>> \/ e.ok = 0>>,
           <<"C14.error_reaching_the_caller_is_not_the_original_exception",
-                S.first = <<>> \/ \E j \in 1..Len(e.tags) : e.tags[j][1] = S.first[1] /\ e.tags[j][2] = S.first[2]>>,
+                S.first = <<>> \/ \E j \in 1..Len(RetTags(e)) : RetTags(e)[j][1] = S.first[1] /\ RetTags(e)[j][2] = S.first[2]>>,
           <<"C14.error_does_not_name_the_failing_node",
-                S.first = <<>> \/ e.node = RootIndex(S, S.first[3], S.first[4])>>,
+                S.first = <<>> \/ RetNode(e) = RootIndex(S, S.first[3], S.first[4])>>,
           <<"C14.started_node_not_stopped_when_the_run_returned", ~cleanup \/ NothingLeftStarted(S)>>,
           <<"C14.user_stop_hook_skipped_for_a_started_node", ~cleanup \/ EveryStartHasItsStop(S)>> >>, 1)
     IN IF why # "" THEN Fail(why) ELSE Ok([S EXCEPT !.returned = TRUE])
